@@ -252,6 +252,7 @@ done:
 
 static long n_hist, n_viol;
 static int nsamples, shard, nshards, depth;
+static const char *only_hist;
 static long g_idx;
 static Report base;
 static char *seen[200];
@@ -303,7 +304,8 @@ static void visit (const Op * h, int n)
   Report R;
   int t;
   long idx = g_idx++;
-  if ((idx % nshards) != shard) return;
+  if (only_hist) { if (strcmp (hist_str (h, n), only_hist)) return; }
+  else if ((idx % nshards) != shard) return;
   run_hist (h, n, &R);
   n_hist++;
   if (R.rc) { viol (h, n, R.rc == 3 ? "crash" : "oracle", R.msg); return; }
@@ -346,6 +348,7 @@ int main (int argc, char **argv)
   shard = v_argi (argc, argv, "--shard", 0);
   nshards = v_argi (argc, argv, "--nshards", 1);
   depth = v_argi (argc, argv, "--depth", thorough ? 5 : 4);
+  only_hist = v_arg (argc, argv, "--only-history", NULL);
   ntargets_used = thorough ? 3 : 2;
   setvbuf (stdout, NULL, _IOLBF, 0);
   orc_init ();
